@@ -1314,7 +1314,12 @@ class Interp:
             elif p in kw:
                 env[p] = kw.pop(p)
             elif defaults[i] is not None:
-                env[p] = Interp(f.mod).ev(defaults[i], {"__parent__": f.closure})
+                # default values are evaluated once, when the function is defined, and shared by all calls (CPython semantics)
+                cache = f.mod.world.__dict__.setdefault("_defaults", {})
+                ck = (id(node), i)
+                if ck not in cache:
+                    cache[ck] = Interp(f.mod).ev(defaults[i], {"__parent__": f.closure})
+                env[p] = cache[ck]
             else:
                 raise PyRaise("TypeError", (f.mod.name, node.lineno, f"missing argument {p}"))
         if a.vararg is not None:
